@@ -11,7 +11,7 @@ import json, os, sys
 RECV_DECL = {"ref": "&self", "mut": "&mut self", "own": "self", "pinref": "self: Pin<&Self>", "pinmut": "self: Pin<&mut Self>"}
 ARG_TY = {"none": None, "i64": "i64", "cstruct": "Pt", "ref": "&u64", "mutref": "&mut u64", "slice": "&[u8]",
           "mutslice": "&mut [u8]", "str": "&str", "opt": "Option<u64>", "optnpo": "Option<&u64>", "optptr": "Option<*const u8>",
-          "optmut": "Option<&mut u64>", "slice64": "&[u64]", "slicezst": "&[()]", "optstruct": "Option<Pt>", "rawptr": "*const u8",
+          "optmut": "Option<&mut u64>", "slice64": "&[u64]", "mutslice64": "&mut [u64]", "slicezst": "&[()]", "optstruct": "Option<Pt>", "rawptr": "*const u8",
           "result": "Result<u64, u64>", "into": "impl Into<u64>", "callback": "OpaqueCallback<u64>", "iter": "CIterator<u64>"}
 RET_TY = {"unit": None, "i64": "i64", "cstruct": "Pt", "slice": "&[u8]", "mutslice": "&mut [u8]", "str": "&str",
           "opt": "Option<u64>", "optnpo": "Option<&u64>", "optptr": "Option<*const u8>", "result": "Result<u64, ()>", "resunit": "Result<(), ()>",
@@ -34,6 +34,7 @@ ARG_BODY = {
     "optmut": "let d = match &a { None => -1, Some(v) => **v as i64 }; log(d); log(a.as_ref().map(|v| &**v as *const u64 as i64).unwrap_or(0)); if let Some(v) = a { *v = v.wrapping_mul(3).wrapping_add(2); }",
     "slice64": "let d = a.iter().map(|&b| (b % 1000) as i64).sum::<i64>() + a.len() as i64 * 1000; log(d); log(a.as_ptr() as i64);",
     "slicezst": "let d = a.len() as i64 * 1000 + 7; log(d); log(a.as_ptr() as i64);",
+    "mutslice64": "let d = a.iter().map(|&b| (b % 1000) as i64).sum::<i64>() + a.len() as i64 * 1000; log(d); log(a.as_ptr() as i64); for b in a.iter_mut() { *b = b.wrapping_add(3); }",
     "optstruct": "let d = match a { None => -1, Some(p) => (p.x as i64) * 1000 + p.y + p.z as i64 }; log(d);",
     "rawptr": "let d = if a.is_null() { -1 } else { unsafe { *a as i64 * 7 + *a.add(3) as i64 } }; log(d); log(a as i64);",
     "result": "let d = match a { Ok(v) => v as i64, Err(e) => -(e as i64) }; log(d);",
@@ -137,6 +138,10 @@ def arg_setup(arg, v):
         rng = ["[1..1]", "[..]"][v]
         return ("let av: Vec<u64> = vec![u64::MAX, 2, 250]; let sent_d = av%s.iter().map(|&b| (b %% 1000) as i64).sum::<i64>() + av%s.len() as i64 * 1000; let sent_addr = av%s.as_ptr() as i64;" % (rng, rng, rng),
                 "&av%s" % rng, "let post: Vec<i64> = vec![];")
+    if arg == "mutslice64":
+        rng = ["[1..1]", "[..]"][v]
+        return ("let mut av: Vec<u64> = vec![u64::MAX, 2, 250]; let sent_d = av%s.iter().map(|&b| (b %% 1000) as i64).sum::<i64>() + av%s.len() as i64 * 1000; let sent_addr = av%s.as_ptr() as i64;" % (rng, rng, rng),
+                "&mut av%s" % rng, "let post: Vec<i64> = av.iter().map(|&b| (b % 100000) as i64).collect();")
     if arg == "slicezst":
         # zero-sized elements: the length is the only content
         rng = ["[2..2]", "[..]"][v]
